@@ -29,9 +29,11 @@ Qed.
 
 Section CgSem4.
   Variable g0 : mg nat.
+  Context {D : Type} {eqD : EqB D}.
   Variable U : Type.
-  Variable f : nat -> (nat -> bool) -> U -> bool.
-  Variable rho : nat -> bool.
+  Variable f : nat -> (nat -> D) -> U -> D.
+  Variable rho : nat * bool -> D.
+  Hypothesis rho_distinct : forall n, rho (n, false) <> rho (n, true).
   Hypothesis f_local : local g0 U f.
   Variable order : list nat.
   Hypothesis order_ok : is_topo g0 order = true.
@@ -198,7 +200,7 @@ Section CgSem4.
 
   (* ------------------------------------------------------------ the axiom of effectiveness on the event's own subscripts *)
   Lemma lit_inj n a b : lit rho (n, a) = lit rho (n, b) -> a = b.
-  Proof. unfold lit. cbn [fst snd]. destruct (rho n), a, b; cbn; congruence. Qed.
+  Proof. unfold lit. intros E. destruct a, b; try reflexivity; exfalso; [apply (rho_distinct n); symmetry; exact E|apply (rho_distinct n); exact E]. Qed.
 
   Lemma own_value p i : clean (fst p) -> In (vn (fst p)) (nodes g0) -> In i (own_interventions p) -> val (fst p) = lit rho (vn (fst p), snd i).
   Proof.
@@ -252,10 +254,10 @@ Section CgSem4.
       { apply fold_inv.
         - intros st node Hnode Hst. apply in_map_iff in Hnode. destruct Hnode as [m [<- _]].
           assert (H1 : StInv ev1 (fold_left (fun s w => try_merge s (V m) (at_world (V m) w) false) worlds st)).
-          { apply fold_inv; [|exact Hst]. intros s w _ Hs. apply (try_merge_inv g0 U f rho f_local order order_ok u worlds); [apply V_neq_at|exact Hs]. }
+          { apply fold_inv; [|exact Hst]. intros s w _ Hs. apply (try_merge_inv g0 U f rho rho_distinct f_local order order_ok u worlds); [apply V_neq_at|exact Hs]. }
           unfold step. destruct (Nat.ltb 1 (length worlds)); [|exact H1]. apply fold_inv; [|exact H1]. intros s [w1 w2] Hww Hs. cbn [fst snd].
           destruct (unordered_pairs_distinct norm_ivs worlds w1 w2 worlds_distinct Hww) as [Hd _].
-          apply (try_merge_inv g0 U f rho f_local order order_ok u worlds); [|exact Hs]. intros E. unfold at_world in E. inversion E as [E']. apply Hd. exact E'.
+          apply (try_merge_inv g0 U f rho rho_distinct f_local order order_ok u worlds); [|exact Hs]. intros E. unfold at_world in E. inversion E as [E']. apply Hd. exact E'.
         - split; cbn [fst snd]; [|tauto]. apply initial_inv.
           + intros p Hp. unfold ev1, effective_event in Hp. apply filter_In in Hp. apply named0. apply Hp.
           + unfold ev1, effective_event. apply NoDup_map_filter. exact keys0. }
